@@ -25,12 +25,13 @@ EXPLANATION = (
     "x filter {absent, accepts, rejects}: a rejected code object reaches neither handle_call nor handle_return nor any "
     "other effect, an accepted one is always dispatched, and the filter is asked about the frame's own code object. "
     "CallTraceStoreLogger.log is interpreted for module names {__main__, other}: only non-__main__ traces are appended, "
-    "flush hands exactly the collected list to store.add and resets it. default_code_filter is checked structurally: "
-    "empty/synthetic file names return False before any path work; the file name and every library root pass through "
-    "Path.resolve() before relative_to/prefix tests; roots cover stdlib, purelib and platlib; the exclusion is "
-    "`not any(...)` over all roots, unfiltered; the allow-list branch is selected by `is not None` and tests stem and parts. "
-    "The filter is forwarded unchanged from the config to the tracer. Not decided: the verdict for each real file of the "
-    "installed interpreter (file-system enumeration), lru_cache staleness."
+    "flush hands exactly the collected list to store.add and resets it. default_code_filter is interpreted in an abstract "
+    "file-system world (three library roots - one configured through a symbolic link -, a link into site-packages, sibling "
+    "directories whose names merely start like a root, relative and synthetic file names; pathlib/os.path/os.environ/sysconfig "
+    "catalogued) on 14 code objects x 10 allow-lists and must agree with an oracle written from the property's sentence; "
+    "synthetic names must be rejected before any path work. The filter is forwarded unchanged from the config to the tracer "
+    "(trace()/trace_calls interpreted with a symbolic configuration). Not decided: the verdict for each real file of the "
+    "installed interpreter (file-system enumeration), lru_cache staleness of default_code_filter w.r.t. the environment."
 )
 M = "monkeytype.tracing"
 
